@@ -5,7 +5,7 @@
     scalars or both ndarrays of one entry per travel time; with trim and start numpy can raise (row start beyond the trimmed
     length) unless int(stt/dt) - int(tt_j/dt) <= npts for every j (stated as a guard in C19_lengths). *)
 From Coq Require Import ZArith Reals List Lia Lra.
-From EQ Require Import lib.Num lib.NpList lib.Quad model.M_im model.M_surface proofs.P_C19.
+From EQ Require Import lib.Num lib.NpList lib.Quad model.M_im model.M_surface proofs.P_C19 proofs.P_C19_refute.
 Import ListNotations.
 Local Open Scope R_scope.
 
@@ -108,10 +108,10 @@ Proof. exact P_C19.C19_row_eq_single_trimmed. Qed.
 (** Untrimmed, start = False: the batch is padded to the largest shift, so the single result is a prefix of the batch
     row, and the batch row is constant from the first index after it (both waves are zero from there on; the value at
     that index differs from the single result's last value by the half panel dt*a_last/2 when the record does not end
-    at zero).
-    PARTIAL: for trim = False with start = True (row length depends on the whole batch) only the prefix relation holds;
-    it is not a theorem here and is decided by the correspondence check (chk_row_single mode 2) on implementation
-    outputs only. *)
+    at zero).  The theorem below (kept under its original name) states this for the energy only; it is now subsumed by
+    C19_row_eq_single_untrimmed (energy, cumulative absolute change and motions) further down, and the
+    trim = False, start = True combination is settled by C19_row_single_prefix_start (prefix: a theorem) and
+    C19_start_untrimmed_const_tail_refuted (constant tail: FALSE, refuted by a witness). *)
 Theorem C19_row_eq_single_untrimmed_partial : forall nodal dt (vals tts : list R) ur dr j stt,
   0 < dt -> (forall t, In t tts -> 0 <= t) -> (j < length tts)%nat ->
   let rb := nth j (surface_energy nodal false false dt vals tts ur dr stt) [] in
@@ -119,6 +119,67 @@ Theorem C19_row_eq_single_untrimmed_partial : forall nodal dt (vals tts : list R
   (exists tl, rb = rs ++ tl) /\
   forall i, (length rs <= i < length rb)%nat -> nth i rb 0 = nth (length rs) rb 0.
 Proof. exact P_C19.C19_row_eq_single_untrimmed. Qed.
+(** [prefix_const rb rs]: rs is a prefix of rb and rb is constant from the first index after it *)
+Theorem C19_prefix_const_def : forall rb rs : list R,
+  P_C19.prefix_const rb rs <->
+  (exists tl, rb = rs ++ tl) /\ forall i, (length rs <= i < length rb)%nat -> nth i rb 0 = nth (length rs) rb 0.
+Proof. intros; reflexivity. Qed.
+(** Untrimmed, start = False, all three outputs (energy, cumulative absolute change, motions); for the motions the tail
+    is identically zero.  Guards: dt > 0, travel times >= 0. *)
+Theorem C19_row_eq_single_untrimmed : forall nodal dt (vals tts : list R) ur dr j stt,
+  0 < dt -> (forall t, In t tts -> 0 <= t) -> (j < length tts)%nat ->
+  let t := nth j tts 0 in let ur1 := RScalar (red_at ur j) in let dr1 := RScalar (red_at dr j) in
+  P_C19.prefix_const (nth j (surface_energy nodal false false dt vals tts ur dr stt) [])
+                     (nth 0 (surface_energy nodal false false dt vals [t] ur1 dr1 stt) []) /\
+  P_C19.prefix_const (nth j (cum_abs_surface_energy nodal false false dt vals tts ur dr stt) [])
+                     (nth 0 (cum_abs_surface_energy nodal false false dt vals [t] ur1 dr1 stt) []) /\
+  P_C19.prefix_const (nth j (time_shift_motions nodal false false dt vals tts ur dr stt) [])
+                     (nth 0 (time_shift_motions nodal false false dt vals [t] ur1 dr1 stt) []) /\
+  (forall i, (length (nth 0 (time_shift_motions nodal false false dt vals [t] ur1 dr1 stt) []) <= i)%nat ->
+     nth i (nth j (time_shift_motions nodal false false dt vals tts ur dr stt) []) 0 = 0).
+Proof. exact P_C19.C19_row_eq_single_untrimmed_all. Qed.
+(** Untrimmed, start = True: every row is cut out of its untrimmed row with the batch-wide length
+    npts + max(0, max_j(int(stt/dt) - int(tt_j/dt))) (C19_lengths), so the single-travel-time result (length
+    npts + max(0, int(stt/dt) - int(tt/dt))) is a prefix of the batch row - for the energy, its cumulative absolute change
+    and the motions.  Guards: dt > 0, travel times >= 0, stt >= 0.  (This is what chk_row_single mode 2 evaluates on the
+    implementation outputs.) *)
+Theorem C19_row_single_prefix_start : forall nodal dt (vals tts : list R) ur dr j stt,
+  0 < dt -> (forall t, In t tts -> 0 <= t) -> (j < length tts)%nat -> 0 <= stt ->
+  let t := nth j tts 0 in let ur1 := RScalar (red_at ur j) in let dr1 := RScalar (red_at dr j) in
+  (exists tl, nth j (surface_energy nodal false true dt vals tts ur dr stt) [] =
+     nth 0 (surface_energy nodal false true dt vals [t] ur1 dr1 stt) [] ++ tl) /\
+  (exists tl, nth j (cum_abs_surface_energy nodal false true dt vals tts ur dr stt) [] =
+     nth 0 (cum_abs_surface_energy nodal false true dt vals [t] ur1 dr1 stt) [] ++ tl) /\
+  (exists tl, nth j (time_shift_motions nodal false true dt vals tts ur dr stt) [] =
+     nth 0 (time_shift_motions nodal false true dt vals [t] ur1 dr1 stt) [] ++ tl).
+Proof. exact P_C19.C19_row_single_prefix_start'. Qed.
+(** ... but the "constant from the first index after it" clause does NOT carry over to start = True: the extra columns
+    of the batch row are set by the other travel times and show more of the still-arriving reflected wave.
+    REFUTED by the witness record [1; 2; 3], dt = 1, travel times [0; 2], nodal, unit reductions, stt = 2, row 1
+    (rows of the R-model obtained from the Q-run through the transfer theorems; the implementation returns the same
+    rows: energy [0, 1.125, 8, 15.125, 12.5] vs single [0, 1.125, 8]). *)
+Theorem C19_const_tail_clause_def : forall f,
+  P_C19_refute.const_tail_clause f <->
+  forall nodal dt (vals tts : list R) ur dr j stt,
+  0 < dt -> (forall t, In t tts -> 0 <= t) -> (j < length tts)%nat -> 0 <= stt ->
+  P_C19.prefix_const (nth j (f nodal false true dt vals tts ur dr stt) [])
+               (nth 0 (f nodal false true dt vals [nth j tts 0] (RScalar (red_at ur j)) (RScalar (red_at dr j)) stt) []).
+Proof. intros; reflexivity. Qed.
+Theorem C19_start_untrimmed_const_tail_refuted :
+  ~ P_C19_refute.const_tail_clause surface_energy /\ ~ P_C19_refute.const_tail_clause cum_abs_surface_energy /\
+  ~ P_C19_refute.const_tail_clause time_shift_motions.
+Proof. exact P_C19_refute.C19_start_untrimmed_const_tail_refuted. Qed.
+Theorem C19_start_untrimmed_witness_rows :
+  nth 1 (surface_energy true false true 1 [1; 2; 3] [0; 2] (RScalar 1) (RScalar 1) 2) [] = [0; 9 / 8; 8; 121 / 8; 25 / 2] /\
+  nth 0 (surface_energy true false true 1 [1; 2; 3] [2] (RScalar 1) (RScalar 1) 2) [] = [0; 9 / 8; 8] /\
+  nth 1 (cum_abs_surface_energy true false true 1 [1; 2; 3] [0; 2] (RScalar 1) (RScalar 1) 2) [] = [0; 9 / 8; 8; 121 / 8; 71 / 4] /\
+  nth 0 (cum_abs_surface_energy true false true 1 [1; 2; 3] [2] (RScalar 1) (RScalar 1) 2) [] = [0; 9 / 8; 8] /\
+  nth 1 (time_shift_motions true false true 1 [1; 2; 3] [0; 2] (RScalar 1) (RScalar 1) 2) [] = [1; 2; 3; 0; -1] /\
+  nth 0 (time_shift_motions true false true 1 [1; 2; 3] [2] (RScalar 1) (RScalar 1) 2) [] = [1; 2; 3].
+Proof.
+  exact (conj P_C19_refute.w_energy_batch (conj P_C19_refute.w_energy_single (conj P_C19_refute.w_cum_batch
+        (conj P_C19_refute.w_cum_single (conj P_C19_refute.w_motions_batch P_C19_refute.w_motions_single))))).
+Qed.
 (** a scalar reduction factor is the same as an array of equal entries *)
 Theorem C19_scalar_red_is_constant_array : forall nodal dt (vals tts : list R) u d,
   acc_rows nodal dt vals tts (RScalar u) (RScalar d) =
